@@ -112,6 +112,7 @@ class RefA:
         self.cut_pruned = 0
         self.commits = 0     # if-then-else / negation with a succeeding condition
         self.sto_checks = 0
+        self.bcalls = {}
 
     # ---- program management (model of the predicate table, C08)
     def load(self, clauses, overwrite=True):
@@ -256,6 +257,8 @@ class RefA:
             return
         # builtins (only when not redefined; the engine registers them as functions
         # under the same keys, so a script defining e.g. once/1 replaces the builtin)
+        if name in ('=', '\\=', 'call', 'once', 'findall', 'assertz', 'asserta', 'retract', 'retractall'):
+            self.bcalls[name] = self.bcalls.get(name, 0) + 1
         if key == ('=', 2):
             s1 = self.usto(args[0], args[1], s)
             if s1 is not None:
